@@ -675,14 +675,17 @@ pub fn c03_scenario(ch: &mut Chooser, thorough: bool) -> Exec {
 pub fn c14_scenario(ch: &mut Chooser, thorough: bool) -> Exec {
     let ticks: &[u64] = if thorough { &[1, 2, 3, 5] } else { &[1, 3] };
     let tick = *ch.of("tick_ms", ticks);
-    let ranges: &[(u64, u64)] = if thorough { &[(0, 0), (1, 1), (2, 2), (0, 3), (1, 5), (3, 10)] } else { &[(2, 2), (0, 3), (3, 10)] };
+    let ranges: &[(u64, u64)] = if thorough { &[(0, 0), (1, 1), (2, 2), (0, 3), (1, 5), (3, 10), (120, 120), (101, 103)] } else { &[(2, 2), (0, 3), (3, 10), (120, 120)] };
     let (gmin, gmax) = *ch.of("global_latency_ms", ranges);
     // override: 0 none, 1 set_link_latency(A,B,d), 2 set_link_max_message_latency(A,B,m), 3 set_max_message_latency(m)
-    let okind = ch.choose("latency_override", 4);
+    // the long latencies (beyond the builder's default maximum) are run without overrides
+    let long = gmin >= 100;
+    let okind = if long { 0 } else { ch.choose("latency_override", 4) };
     let oval: u64 = if okind == 0 { 0 } else { *ch.of("override_value_ms", &[0u64, 4, 12]) };
     let owhen = if okind == 0 { 0 } else { ch.choose("override_before_step", 2) }; // 0 = before the run, 1 = before step 1
-    let named = if okind == 0 { 0 } else { ch.choose("override_hosts_named_by", 2) }; // 0 name, 1 regex
-    let burst = *ch.of("burst", &[1usize, 2, 4]);
+    let named = if okind == 0 { 0 } else { ch.choose("override_hosts_named_by", 2) }; // 0 names, 1 one regex per host, 2 ha + a regex matching every host
+    let named = if named == 1 && ch.dev_flag("second_regex_matches_every_host") { 2 } else { named };
+    let burst = if long { 2 } else { *ch.of("burst", &[1usize, 2, 4]) };
     // tokio's paused clock has 1ms granularity: an in-step offset needs a tick of >= 2ms
     let offset_half = tick >= 2 && ch.flag("second_message_sent_half_a_tick_later");
     let send_steps = if burst == 4 { 1 } else { 2 };
@@ -695,13 +698,15 @@ pub fn c14_scenario(ch: &mut Chooser, thorough: bool) -> Exec {
         return Exec { outcome: 0, violation: None, features: vec!["skipped-invalid-config"] };
     }
     // an earlier override (always before the run), so that sequences of two settings occur
-    let (pkind, pval): (usize, u64) = *ch.of("earlier_override(none|link fixed 3|link max 6|global max 7)", &[(0usize, 0u64), (1, 3), (2, 6), (3, 7)]);
+    let (pkind, pval): (usize, u64) = if long { (0, 0) } else { *ch.of("earlier_override(none|link fixed 3|link max 6|global max 7)", &[(0usize, 0u64), (1, 3), (2, 6), (3, 7)]) };
     let apply_kind = |sim: &Sim, okind: usize, oval: u64, glob: &mut (u64, u64), linkcfg: &mut Option<(u64, u64)>| {
         let d = Duration::from_millis(oval);
         match okind {
             1 => {
                 if named == 1 {
                     sim.set_link_latency(regex::Regex::new("^ha$").unwrap(), regex::Regex::new("^hb$").unwrap(), d)
+                } else if named == 2 {
+                    sim.set_link_latency(NAMES[0], regex::Regex::new("^h").unwrap(), d)
                 } else {
                     sim.set_link_latency(NAMES[0], NAMES[1], d)
                 }
@@ -710,6 +715,8 @@ pub fn c14_scenario(ch: &mut Chooser, thorough: bool) -> Exec {
             2 => {
                 if named == 1 {
                     sim.set_link_max_message_latency(regex::Regex::new("^ha$").unwrap(), regex::Regex::new("^hb$").unwrap(), d)
+                } else if named == 2 {
+                    sim.set_link_max_message_latency(NAMES[0], regex::Regex::new("^h").unwrap(), d)
                 } else {
                     sim.set_link_max_message_latency(NAMES[0], NAMES[1], d)
                 }
@@ -759,7 +766,7 @@ pub fn c14_scenario(ch: &mut Chooser, thorough: bool) -> Exec {
                 let c = unsafe { &mut *chp };
                 // full enumeration of the variates for a single setting; deviation-bounded
                 // when two settings are combined (keeps the grid tractable)
-                if pkind != 0 {
+                if pkind != 0 || named == 2 {
                     c.deviate("latency-variate", n)
                 } else {
                     c.choose("latency-variate", n)
@@ -790,7 +797,7 @@ pub fn c14_scenario(ch: &mut Chooser, thorough: bool) -> Exec {
     let mut violation: Option<Violation> = None;
     let mut obs: Vec<String> = vec![];
     let mut feats: Vec<&'static str> = vec![];
-    let horizon = send_steps + (20 / tick as usize) + 4;
+    let horizon = send_steps + (gmax.max(20) as usize / tick as usize) + 4;
     for k in 0..horizon {
         if k == 1 && okind != 0 && owhen == 1 {
             apply_override(&net.sim, &mut glob, &mut linkcfg);
@@ -894,7 +901,7 @@ pub fn c14_scenario(ch: &mut Chooser, thorough: bool) -> Exec {
     drop(g);
     if let Some(v) = violation.as_mut() {
         v.sig = format!("{}|override={}", v.clause, okind);
-        v.scenario = format!("c14 tier={} tick={tick} global=({gmin},{gmax}) override={okind}/{oval}/{owhen} burst={burst} half={offset_half}", if thorough { "thorough" } else { "quick" });
+        v.scenario = format!("c14 tier={} tick={tick} global=({gmin},{gmax}) override={okind}/{oval}/{owhen}/named{named} burst={burst} half={offset_half}", if thorough { "thorough" } else { "quick" });
         v.actions = obs.clone();
     }
     Exec { outcome: Digest::of64(&obs), violation, features: feats }
